@@ -248,7 +248,7 @@ DumpRec ==
                                boot |-> ev.boot, notify |-> ev.notify, claim |-> ev.claim, node |-> ev.claim.node]
     [] ev.ev = "Reap"      -> [kind |-> "reap", cfg |-> ev.cfg, world |-> ev.world]
     [] ev.ev = "StaleFire" -> [kind |-> "stalefire", cfg |-> ev.cfg, world |-> ev.world, node |-> ev.node]
-Dump == (Dumping /\ ev.ev \in {"NodeOp", "Reap", "StaleFire", "UdpAlive"}) => PrintT(<<"E", ToJson(DumpRec)>>)
+Dump == (Dumping /\ ev.ev \in {"NodeOp", "Reap", "StaleFire", "UdpAlive"}) => PrintT(<<"E", ToJson(DumpRec @@ [level |-> TLCGet("level")])>>)
 
 -----------------------------------------------------------------------------
 (* Properties on the model: every transition satisfies every step predicate *)
